@@ -63,7 +63,7 @@ pub fn c01() -> Check {
         profile: Profile::Shape,
         weights: OpWeights::base(),
         tree_surface_weight: 25,
-        quick: (150, 250, 120),
+        quick: (400, 300, 150),
         thorough: (800, 500, 300),
         nontrivial: |s| s.flushes + s.ingests >= 1 && s.merges + s.gcs >= 1,
     })
@@ -86,7 +86,7 @@ pub fn c03() -> Check {
         profile: Profile::Shape,
         weights: w,
         tree_surface_weight: 25,
-        quick: (150, 200, 120),
+        quick: (300, 250, 120),
         thorough: (800, 400, 300),
         nontrivial: |s| s.flushes + s.ingests >= 1 && s.merges + s.gcs >= 1 && s.scan_reversals >= 1,
     })
@@ -111,7 +111,7 @@ pub fn c05() -> Check {
         profile: Profile::Shape,
         weights: w,
         tree_surface_weight: 25,
-        quick: (120, 200, 120),
+        quick: (250, 250, 120),
         thorough: (2500, 400, 300),
         nontrivial: |s| s.merges >= 1 && s.gcs >= 1 && s.gc_dropped_entries >= 1,
     })
